@@ -14,4 +14,28 @@ CHECKS = {
         "level": "Generated-input search over compositions of the real caches/ROB/memories with small geometries and generated request streams; every read checked against a flat reference memory, every request checked for exactly one matching response, quiescence decided by the empty event queue. Exploration only: bounded geometries and stream lengths.",
         "note": "Trusts the harness requester (stalls instead of overlapping in-flight bytes), the reference memory, and the reading that a masked write does not touch masked-off bytes. DRAM bottoms are exercised by C22's harness.",
     },
+    "C19": {
+        "pkg": "memsyschk", "floor_quick": 20,
+        "technique": "property-based testing (rapid): per-event directory invariants on generated hierarchies + model-based test of the directory operations",
+        "level": "Generated-input search: the directory invariants are evaluated after every handled event of generated cache hierarchies (hundreds of runs, ~10^5 events per quick run), and the exported directory operations (victim choice, visit, lookup) are driven by generated histories against a recency model. Exploration: small geometries, bounded histories.",
+        "note": "The victim clause is judged on DirectoryFindVictim directly and, at system level, only through its consequences (negative reader count, duplicate lines, C16 data mismatches): a per-event snapshot cannot soundly attribute a same-tick unlock-then-replace.",
+    },
+    "C17": {
+        "pkg": "memsyschk", "floor_quick": 20,
+        "technique": "property-based testing (rapid): generated hierarchy + workload + flush filter vs reference memory and pre-flush directory snapshot",
+        "level": "Generated-input search: (a) any hierarchy with a write-back cache, workload optionally interrupted by a mid-run drain/flush/enable, then drain+flush of all caches, backing memory compared byte-for-byte with the reference; (b) a single write-back cache with generated address/PID flush filters judged against the set of dirty lines read before the flush. Exploration with small geometries.",
+        "note": "Trusts C16's reference memory; cases whose C16 data oracle already fails with a listed C16 finding are not judged (counted as a class).",
+    },
+    "C20": {"pkg": "memutilchk", "floor_quick": 1000,
+        "technique": "model-based PBT (rapid): generated (capacity, unit, read/write/checkpoint history) vs byte-array model",
+        "level": "Generated-input search: 20k (quick) / 3.2M (thorough) histories of up to 24 ops over capacities 1 B-64 KiB, 2^20..2^63 and 2^64-1-k, unit sizes 1/prime/pow2/>capacity, addresses weighted to capacity+-3, unit boundaries and 2^64-k; every op judged against the model and the contents re-compared after every op. Does not prove all inputs.",
+        "note": "Trusts the byte-array model and the input-class computation; lengths <= 128KiB+8; unit size 0 / capacity 0 outside the domain; for capacities > 128 KiB 'contents unchanged' is checked on every range ever written plus windows around the access ends, 0 and capacity."},
+    "C24": {"pkg": "memutilchk", "floor_quick": 5000,
+        "technique": "PBT (rapid) + complete enumeration of small configurations: closed-form / counting rank oracle for both converters, differential agreement with InterleavedAddressPortMapper",
+        "level": "Generated-input search: 100k (quick) / 16M (thorough) (size, n, element, offset, address set) cases incl. non-power-of-two sizes, offsets and addresses near 2^64, each address judged for acceptance/rejection and exact internal address; plus every configuration with size<=8, n<=5, offset<=2 rounds+1 over all addresses up to 3 rounds (exhaustive for that sub-space only).",
+        "note": "Offset read as the first external address of the region (from the code's own belongsTo arithmetic); rejection = log.Panic; mapper compared only where it can express the region (offset multiple of round size)."},
+    "C26": {"pkg": "memutilchk", "floor_quick": 500,
+        "technique": "model-based state-machine PBT (rapid): map model, second instance replaying the history, 16x repeated lookups, checkpoint round trip",
+        "level": "Generated-input search: 10k (quick) / 1.6M (thorough) histories of up to 40 ops over 1-6 processes with deliberately shared frames; every Find/ReverseLookup judged against the model, repeated 16 times and compared with a second table; checkpoint save->load->save byte-identical and all answers preserved. Nondeterminism is detected probabilistically (~88% per shared-frame lookup).",
+        "note": "Keys are page-aligned (only Find aligns); documented misuse panics are asserted; checkpoint reached via type assertion as the repo's own test does; no concurrency."},
 }
